@@ -368,6 +368,9 @@ func (r *Run) selectOp(cases []selCase, blocking bool) (int, Value, bool) {
 		}
 	}
 	if len(ready) > 0 {
+		if len(ready) > 1 {
+			r.selectForks++
+		}
 		k := ready[r.chooseN(len(ready))]
 		c := cases[k]
 		if c.send {
